@@ -220,18 +220,19 @@ type Obligation struct {
 func (o Obligation) Key() string { return o.Rule + "|" + o.Func + "|" + o.Construct }
 
 type Ctx struct {
-	P        *Prog
-	Prop     string
-	Tier     string
-	Obls     []Obligation
-	keys     map[string]int
-	Evals    int // instructions / table entries / sites examined
-	ruleN    map[string]int
-	ruleMin  map[string]int
-	Notes    []string
-	Decided  []string // clauses decided
-	NotDec   []string // clauses not decided
-	Analysed map[string]bool
+	P           *Prog
+	Prop        string
+	Tier        string
+	Obls        []Obligation
+	keys        map[string]int
+	Evals       int // instructions / table entries / sites examined
+	ruleN       map[string]int
+	ruleMin     map[string]int
+	Notes       []string
+	Sensitivity []seedResult
+	Decided     []string // clauses decided
+	NotDec      []string // clauses not decided
+	Analysed    map[string]bool
 }
 
 func NewCtx(p *Prog, prop, tier string) *Ctx {
@@ -447,6 +448,7 @@ func (c *Ctx) Finish(start time.Time) int {
 			"checker_cmd":         "/verif/bin/gmsmcheck -property " + c.Prop + " -tier " + c.Tier,
 			"trusted_base":        []string{"go/types", "go/ssa", "golang.org/x/tools v0.29.0", "rule instance tables in /verif/checker"},
 			"exhaustive":          false,
+			"sensitivity":         c.Sensitivity,
 		},
 		Assume: assumptions, WallS: time.Since(start).Seconds(), Violations: nviol}
 	b, _ := json.MarshalIndent(ev, "", " ")
